@@ -376,12 +376,10 @@ func checkC20(c *Ctx, r *Report) {
 		oneof := oneofValues(tag)
 		var labels, sites []string
 		if fi := need(c, r, "C20.c", "generator/swagen.GenerateSpec"); fi != nil {
-			for _, sw := range w.switches(fi, func(tag ast.Expr) bool {
-				se, ok := tag.(*ast.SelectorExpr)
-				return ok && qualField(fi.Pkg.TypesInfo, se) == "definitions.OpenAPIGeneratorConfig.OpenAPI"
-			}) {
-				labels = append(labels, sw.Labels...)
-				sites = append(sites, w.pos(sw.Pos))
+			labs, ps := w.dispatchLabels(fi, w.exprIsJustField(fi, "definitions.OpenAPIGeneratorConfig.OpenAPI"))
+			labels = append(labels, labs...)
+			for _, p := range ps {
+				sites = append(sites, w.pos(p))
 			}
 		}
 		if f := fieldOf(oc, "OpenAPI"); f != nil {
